@@ -7,7 +7,7 @@ import z3
 import fpops
 from fpops import FV, EngineError, CTX
 from values import Ptr, Slice, Str, Iface, Func, MapRef, Tup, Agg, b_not, b_and, b_or, b_term, bv
-from symex import intercept, PathEnd, ForkReq, ForkList, Obligation, STUBS
+from symex import intercept, PathEnd, ForkReq, ForkList, Obligation, STUBS, TailCall
 
 
 def stub(name):
@@ -656,3 +656,228 @@ def bits_mul64(ex, st, fr, ins, args):
     X, Y = z3.ZeroExt(64, bv(x, 64)), z3.ZeroExt(64, bv(y, 64))
     p = X * Y
     return Tup([z3.Extract(127, 64, p), z3.Extract(63, 0, p)])
+
+
+# ---------------------------------------------------------------------- more of math (bodies are assembly or outside the exported packages)
+
+def _fite(c, a, b):
+    """FV-valued if-then-else for a python bool or z3 Bool condition."""
+    if isinstance(c, bool):
+        return a if c else b
+    ta, tb = fpops.term(a), fpops.term(b)
+    if fpops.is_real(a) or fpops.is_real(b):
+        ta = fpops.realval(a.v) if fpops.is_conc(a) else a.v
+        tb = fpops.realval(b.v) if fpops.is_conc(b) else b.v
+    return FV(a.w, z3.If(c, ta, tb))
+
+
+@stub('math.Modf')
+def m_modf(ex, st, fr, ins, args):
+    x = args[0]
+    ip = fpops.ftrunc(x)
+    fp = fpops.fbin('-', x, ip)
+    # Modf(+-0) = +-0, +-0 (x - trunc(x) would be +0); Modf(+-Inf) = +-Inf, NaN as computed
+    fp = _fite(fpops.fcmp('==', x, FV(64, 0.0)), x, fp)
+    return Tup([ip, fp])
+
+
+@stub('math.Round')
+def m_round(ex, st, fr, ins, args):
+    x = args[0]
+    if fpops.is_conc(x):
+        v = x.v
+        if v != v or v in (math.inf, -math.inf) or v == 0:
+            return FV(64, v)
+        r = math.floor(abs(v) + 0.5) if abs(v) < 2 ** 52 else abs(v)
+        return FV(64, math.copysign(float(r), v))
+    if fpops.is_real(x):
+        a = z3.If(x.v >= 0, x.v, -x.v)
+        r = z3.ToReal(z3.ToInt(a + fpops.realval(0.5)))
+        return FV(64, z3.If(x.v >= 0, r, -r))
+    return FV(64, z3.fpRoundToIntegral(z3.RNA(), x.v))
+
+
+@stub('math.RoundToEven')
+def m_roundeven(ex, st, fr, ins, args):
+    x = args[0]
+    if fpops.is_conc(x):
+        v = x.v
+        if v != v or v in (math.inf, -math.inf) or v == 0:
+            return FV(64, v)
+        return FV(64, math.copysign(float(round(v)), v))
+    if fpops.is_real(x):
+        raise EngineError('math.RoundToEven in a real reading')
+    return FV(64, z3.fpRoundToIntegral(fpops.RNE, x.v))
+
+
+def _minmax(is_max):
+    def f(ex, st, fr, ins, args):
+        x, y = args
+        if fpops.is_real(x) or fpops.is_real(y):
+            c = fpops.fcmp('>=' if is_max else '<=', x, y)
+            return _fite(c, x, y)
+        if fpops.is_conc(x) and fpops.is_conc(y):
+            a, b = x.v, y.v
+            if a != a or b != b:
+                inf = math.inf if is_max else -math.inf
+                return FV(64, inf if (a == inf or b == inf) else math.nan)
+            if a == 0 and b == 0:
+                neg = (math.copysign(1, a) < 0, math.copysign(1, b) < 0)
+                z = (neg[0] and neg[1]) if is_max else (neg[0] or neg[1])
+                return FV(64, -0.0 if z else 0.0)
+            return FV(64, max(a, b) if is_max else min(a, b))
+        tx, ty = fpops.term(x), fpops.term(y)
+        inf = fpops.fpval(64, math.inf if is_max else -math.inf)
+        nan = fpops.fpval(64, math.nan)
+        r = z3.fpMax(tx, ty) if is_max else z3.fpMin(tx, ty)
+        # z3's fpMax/fpMin leave the sign of max(+0,-0) unspecified: spell it out
+        bothz = z3.And(z3.fpIsZero(tx), z3.fpIsZero(ty))
+        if is_max:
+            zz = z3.If(z3.And(z3.fpIsNegative(tx), z3.fpIsNegative(ty)), fpops.fpval(64, -0.0), fpops.fpval(64, 0.0))
+        else:
+            zz = z3.If(z3.Or(z3.fpIsNegative(tx), z3.fpIsNegative(ty)), fpops.fpval(64, -0.0), fpops.fpval(64, 0.0))
+        isinf = z3.Or(z3.fpEQ(tx, inf), z3.fpEQ(ty, inf))
+        anynan = z3.Or(z3.fpIsNaN(tx), z3.fpIsNaN(ty))
+        return FV(64, z3.If(isinf, inf, z3.If(anynan, nan, z3.If(bothz, zz, r))))
+    return f
+
+
+stub('math.Max')(_minmax(True))
+stub('math.Min')(_minmax(False))
+
+
+@stub('math.Signbit')
+def m_signbit(ex, st, fr, ins, args):
+    x = args[0]
+    if fpops.is_conc(x):
+        return math.copysign(1, x.v) < 0
+    if fpops.is_real(x):
+        return x.v < 0
+    return z3.fpIsNegative(x.v)
+
+
+@stub('math.Copysign')
+def m_copysign(ex, st, fr, ins, args):
+    x, s = args
+    if fpops.is_conc(x) and fpops.is_conc(s):
+        return FV(64, math.copysign(x.v, s.v))
+    if fpops.is_real(x) or fpops.is_real(s):
+        ax = fpops.fabs(x)
+        return _fite(fpops.fcmp('<', s, FV(64, 0.0)), fpops.fneg(ax), ax)
+    ax = z3.fpAbs(fpops.term(x))
+    return FV(64, z3.If(z3.fpIsNegative(fpops.term(s)), z3.fpNeg(ax), ax))
+
+
+# ---------------------------------------------------------------------- internal/bytealg (assembly)
+
+def _index_byte(elems, c):
+    """first index of byte c in elems (python ints / BitVec(8)), -1 if absent."""
+    if isinstance(c, int) and all(isinstance(e, int) for e in elems):
+        for i, e in enumerate(elems):
+            if e == (c & 0xff):
+                return i
+        return -1
+    r = z3.BitVecVal(-1, 64)
+    for i in reversed(range(len(elems))):
+        r = z3.If(bv(elems[i], 8) == bv(c, 8), z3.BitVecVal(i, 64), r)
+    return r
+
+
+def _count_byte(elems, c):
+    if isinstance(c, int) and all(isinstance(e, int) for e in elems):
+        return sum(1 for e in elems if e == (c & 0xff))
+    r = z3.BitVecVal(0, 64)
+    for e in elems:
+        r = r + z3.If(bv(e, 8) == bv(c, 8), z3.BitVecVal(1, 64), z3.BitVecVal(0, 64))
+    return r
+
+
+@stub('internal/bytealg.IndexByteString')
+def ba_indexbytestring(ex, st, fr, ins, args):
+    return _index_byte(list(args[0].b), args[1])
+
+
+@stub('internal/bytealg.IndexByte')
+def ba_indexbyte(ex, st, fr, ins, args):
+    return _index_byte(list(ex.slice_elems(st, args[0])), args[1])
+
+
+@stub('internal/bytealg.CountString')
+def ba_countstring(ex, st, fr, ins, args):
+    return _count_byte(list(args[0].b), args[1])
+
+
+@stub('internal/bytealg.Count')
+def ba_count(ex, st, fr, ins, args):
+    return _count_byte(list(ex.slice_elems(st, args[0])), args[1])
+
+
+# ---------------------------------------------------------------------- sync, sync/atomic
+
+def _field_off(ex, tname, fname):
+    for t in ex.prog.types:
+        if t.k == 'named' and t.s == tname:
+            u = ex.prog.under(t)
+            for i, f in enumerate(u.fields or []):
+                if f.get('name') == fname:
+                    return u.foffs[i]
+    raise EngineError('no field %s in %s' % (fname, tname))
+
+
+@stub('(*sync/atomic.Value).Load')
+def av_load(ex, st, fr, ins, args):
+    p = args[0]
+    if p is None:
+        raise PathEnd('panic', 'nil pointer dereference')
+    return st.heap[p.obj][p.off]   # struct{ v any }: one slot
+
+
+@stub('(*sync/atomic.Value).Store')
+def av_store(ex, st, fr, ins, args):
+    p, v = args
+    if v is None:
+        raise PathEnd('panic', 'sync/atomic: store of nil value into Value')
+    # a plain store: the executor's frame monitor reports it when the Value is a package-level variable
+    ex.store(st, Ptr(p.obj, p.off), v)
+    return None
+
+
+@stub('(*sync.Pool).Get')
+def pool_get(ex, st, fr, ins, args):
+    # sync.Pool may drop what was Put at any time: the always-empty pool is one of its legal
+    # behaviours and the one modelled (reuse of pooled objects is outside the model)
+    p = args[0]
+    off = _field_off(ex, 'sync.Pool', 'New')
+    slots = st.heap[p.obj]
+    f = slots[p.off + off]
+    if f is None:
+        return None
+    return TailCall(f.fn, [], f.binds)
+
+
+@stub('(*sync.Pool).Put')
+def pool_put(ex, st, fr, ins, args):
+    return None
+
+
+for _n in ('(*sync.Mutex).Lock', '(*sync.Mutex).Unlock', '(*sync.RWMutex).Lock', '(*sync.RWMutex).Unlock',
+           '(*sync.RWMutex).RLock', '(*sync.RWMutex).RUnlock'):
+    # single goroutine: locks are no-ops
+    stub(_n)(lambda ex, st, fr, ins, args: None)
+
+
+@stub('(*sync.Once).Do')
+def once_do(ex, st, fr, ins, args):
+    p, f = args
+    off = 0
+    slots = st.heap[p.obj]
+    done = slots[p.off + off]
+    if isinstance(done, int) and done != 0:
+        return None
+    if not isinstance(done, int):
+        raise EngineError('sync.Once with symbolic state')
+    w = st.wobj(p.obj)
+    w[p.off + off] = 1
+    if f is None:
+        raise PathEnd('panic', 'call of nil function')
+    return TailCall(f.fn, [], f.binds)
